@@ -29,16 +29,16 @@
    and gaps; a token is a plain character (anything but white space, quotes and { } ; : ( ) /,
    so letters, digits, . # - _ > + , $ @ % ! * [ ] = & \ and all non-ASCII characters), a quoted
    string (content may hold { } : ; ( ) comment markers, the other quote, and backslash + any
-   character, e.g. an escaped quote), `(`, `)`, a `:` inside parentheses, or two or more colons
-   followed by a plain character outside parentheses; selectors may contain delimiting single
+   character, e.g. an escaped quote), `(`, `)`, a `:` inside parentheses, two or more colons
+   followed by a plain character outside parentheses, or a `/` not followed by `*`; selectors may contain delimiting single
    colons (`a:hover`, `:root`, `a:b:c`); a gap is any mix of white space and comments (comment
    bodies free of `*/`) and may stand at every place where the grammar has one: before and
    after selectors, names, values, between tokens, around `{` `:` `;` `}`, at the end.
    Core, pseudo-selectors, parenthesised at-rule conditions, strings, comments, SCSS variables
    and custom properties are all instances; CssRenderExamples.v has one sheet per construct.
    Outside the grammar, by design: `;` `{` `}` inside parentheses outside strings/comments (the
-   listed finding: the scanner does treat them as delimiters), a `/` outside comments and
-   strings, a single `:` at depth 0 inside a value, a declaration without its `;`, empty
+   listed finding: the scanner does treat them as delimiters), a `/` in front of `*` or at the
+   end of a run, a single `:` at depth 0 inside a value, a declaration without its `;`, empty
    names/values/selectors, unterminated strings and comments.  Those remain covered by the
    differential correspondence run of harness/props/c10.py (implementation vs. extracted model
    on every generated sheet and position) and by the ground-truth oracle.
@@ -137,12 +137,13 @@ Example css_render_nonvacuous :
   (wf_sheet sh_str = true /\ render sh_str = tx_str) /\
   (wf_sheet sh_com = true /\ render sh_com = tx_com) /\
   (wf_sheet sh_var = true /\ render sh_var = tx_var) /\
+  (wf_sheet sh_slash = true /\ render sh_slash = tx_slash) /\
   (wf_sheet sh_all = true /\ render sh_all = tx_all /\ events sh_all = ev_all) /\
   css_match tx_all 80 = Some (mkMR true 62 96 69 95) /\
   balanced_outward tx_all 80 = Ok [(69, 95); (62, 96); (62, 103); (29, 105); (0, 107)] /\
   balanced_inward tx_all 30 = Ok [(29, 105); (62, 103); (62, 96); (69, 95)].
 Proof.
-  pose proof ex_pseudo as (Hp1 & Hp2 & _).
+  pose proof ex_pseudo as (Hp1 & Hp2 & _). pose proof ex_slash as (Hs1 & Hs2 & _).
   repeat split; try apply ex_core; try apply ex_at; try apply ex_str; try apply ex_com; try apply ex_var;
     try apply ex_all; try assumption; vm_compute; reflexivity.
 Qed.
